@@ -157,7 +157,7 @@ def r17_3(ctx, fam, cont, entry_fns, entries_fns, make_owned, plain_read, entry_
     for f in entry_fns:
         if f.raw.get("impl_trait") != "std::ops::Drop":
             continue
-        b = f.built
+        b = inl(F, f)
         stores = []
         for loc, s in b.iter_stmts():
             if s["k"] == "assign" and s["place"]["proj"] and s["place"]["proj"][-1] == "deref" and "usize" in b.locals[0]["ty"] + "usize":
